@@ -5,7 +5,7 @@ class Ctx:
         self.__dict__.update(kw)
         self.cache = {}
     def replay_path(self, slug):
-        d = os.path.join(self.root, 'replays')
+        d = os.environ.get('VERIF_REPLAY_DIR') or os.path.join(self.root, 'replays')
         os.makedirs(d, exist_ok=True)
         slug = re.sub(r'[^A-Za-z0-9_.-]+', '_', slug)[:120]
         return os.path.join(d, '%s-%s.json' % (self.prop, slug))
@@ -64,7 +64,7 @@ def write_evidence(ctx, result):
         'inconclusive': result.get('inconclusive', []),
         'repo_state': result.get('repo_state'),
     }
-    d = os.path.join(ctx.root, 'evidence')
+    d = os.environ.get('VERIF_EVIDENCE_DIR') or os.path.join(ctx.root, 'evidence')   # override: campaign runs against a scratch copy must not touch the committed evidence
     os.makedirs(d, exist_ok=True)
     json.dump(ev, open(os.path.join(d, ctx.prop + '.json'), 'w'), indent=1, sort_keys=False)
 
